@@ -154,7 +154,19 @@ func (d *Data) templateData() *document.TemplateData {
 			continue
 		}
 		// the engine gets its own copy of the payload: the cached encoding stays pristine
-		td.SetImageFromData(k, append([]byte(nil), imageData(im)...), nil)
+		payload := append([]byte(nil), imageData(im)...)
+		switch im.Pat % 4 {
+		case 0:
+			// a caller-owned configuration object together with alternative text and title (SetImageWithDetails):
+			// rendering has to leave that object alone like every other piece of the data (U3.data follows the
+			// pointer), and concurrent renders of the same data must not write to it (U4.race)
+			cfg := &document.ImageConfig{Position: document.ImagePositionInline, Alignment: document.AlignCenter}
+			td.SetImageWithDetails(k, "", payload, cfg, "alt "+im.Name, "title "+im.Name)
+		case 1:
+			td.SetImageFromData(k, payload, &document.ImageConfig{Position: document.ImagePositionInline, Alignment: document.AlignLeft, AltText: "own alt"})
+		default:
+			td.SetImageFromData(k, payload, nil)
+		}
 	}
 	return td
 }
